@@ -53,7 +53,7 @@ CLAUSE_PROPERTY = {
     'conf.blockend_all_done': 'C07', 'conf.unexpected_line': 'C07', 'conf.oracle_alignment': 'C07',
     'obs.no_other_error': 'C07',
     'conf.iter': 'C03', 'conf.fdone': 'C03', 'stop.rule': 'C03', 'stop.after_sweep': 'C03',
-    'val.residual_fresh': 'C03', 'obs.iter_budget': 'C03', 'ver.niter': 'C03', 'conf.sweep': 'C03',
+    'val.residual_fresh': 'C03', 'val.residual_value': 'C03', 'obs.iter_budget': 'C03', 'ver.niter': 'C03', 'conf.sweep': 'C03',
     'conf.start.nact': 'C06', 'conf.start.time': 'C06', 'conf.start.dt': 'C06', 'conf.nact': 'C06',
     'conf.time': 'C06', 'val.recv_is_prev_uend': 'C06', 'val.recv_copies_uend': 'C06', 'val.uend_fresh': 'C06',
     'val.carry': 'C06', 'val.block_start_value': 'C06', 'val.start_from_u0': 'C06',
@@ -80,8 +80,13 @@ def oracle_consts(res=(False, True), rs=(False,), dtm=(0,), fd=(False,), fc=(Fal
 def _mc_files(workdir, cfg, oracle, name, hist=False, **cfgkw):
     os.makedirs(workdir, exist_ok=True)
     mod = os.path.join(workdir, f'{name}.tla')
+    cons = list(cfgkw.pop('constraints', []) or [])
     with open(mod, 'w') as f:
-        f.write('---- MODULE %s ----\nEXTENDS PfasstSerial\nmc_NSW == %s\n====\n' % (name, tlc.tla_value(list(cfg['NSW']))))
+        f.write('---- MODULE %s ----\nEXTENDS PfasstSerial\nmc_NSW == %s\n' % (name, tlc.tla_value(list(cfg['NSW']))))
+        for i, c in enumerate(cons):
+            f.write(f'mc_C{i} == {c}\n')
+        f.write('====\n')
+    cfgkw['constraints'] = [f'mc_C{i}' for i in range(len(cons))]
     consts = ds.cfg_constants(cfg, oracle, hist=hist)
     consts['NSW'] = ('<-', 'mc_NSW')
     cfgp = os.path.join(workdir, f'{name}.cfg')
@@ -90,7 +95,7 @@ def _mc_files(workdir, cfg, oracle, name, hist=False, **cfgkw):
 
 
 def model_check(cfg, oracle, invariants, workdir, workers=4, timeout=900, liveness=False, coverage=False,
-                action_props=()):
+                action_props=(), view='view', constraints=()):
     """exhaustive TLC run; returns TlcResult"""
     if liveness:
         cfgp = _mc_files(workdir, cfg, oracle, 'MCL', spec='FairSpec', properties=['Terminates'], view=None,
@@ -98,7 +103,7 @@ def model_check(cfg, oracle, invariants, workdir, workers=4, timeout=900, livene
         return tlc.run_tlc('MCL', cfgp, workers=workers, timeout=timeout, spec_dir=workdir, library=tlc.SPEC_DIR,
                            coverage=False)
     cfgp = _mc_files(workdir, cfg, oracle, 'MC', hist=True, spec='Spec', invariants=invariants, properties=list(action_props),
-                     view='view', check_deadlock=False)
+                     view=view, check_deadlock=False, constraints=list(constraints))
     return tlc.run_tlc('MC', cfgp, workers=workers, timeout=timeout, spec_dir=workdir, library=tlc.SPEC_DIR,
                        coverage=coverage)
 
@@ -113,16 +118,17 @@ def counterexample_script(res):
     j = txt.find('\n/\\ ', i + 5)
     body = txt[i + len('/\\ hist = '):j if j > 0 else None]
     script = []
-    # each element: ( 0 :> [res |-> TRUE, rs |-> FALSE, dtn |-> 0, fd |-> FALSE, fc |-> FALSE] @@ 1 :> [...] )
-    for m in re.finditer(r'(\d+) :>\s*\[res \|-> (\w+), rs \|-> (\w+), dtn \|-> (\d+), fd \|-> (\w+), fc \|-> (\w+)\]', body):
+    # elements: <<0, TRUE, FALSE, 0, FALSE, FALSE>>
+    for m in re.finditer(r'<<\s*(\d+),\s*(\w+),\s*(\w+),\s*(\d+),\s*(\w+),\s*(\w+)\s*>>', body):
         script.append(dict(s=int(m.group(1)), res=m.group(2) == 'TRUE', rs=m.group(3) == 'TRUE', dtn=int(m.group(4)),
                            fd=m.group(5) == 'TRUE', fc=m.group(6) == 'TRUE'))
     return script
 
 
-def generate(cfg, oracle, workdir, workers=4, timeout=600, simulate=None, seed=0):
+def generate(cfg, oracle, workdir, workers=4, timeout=600, simulate=None, seed=0, constraints=()):
     """TLC enumerates (or samples) behaviours; returns list of oracle scripts (absolute dtn in ticks)"""
-    cfgp = _mc_files(workdir, cfg, oracle, 'GEN', hist=True, spec='GenSpec', invariants=['GenPrint'], check_deadlock=False)
+    cfgp = _mc_files(workdir, cfg, oracle, 'GEN', hist=True, spec='GenSpec', invariants=['GenPrint'], check_deadlock=False,
+                     constraints=list(constraints))
     res = tlc.run_tlc('GEN', cfgp, workers=workers, timeout=timeout, spec_dir=workdir, library=tlc.SPEC_DIR,
                       simulate=simulate, depth=400 if simulate else None, seed=seed if simulate else None)
     scripts = {}
